@@ -23,7 +23,10 @@ use std::net::SocketAddr;
 use std::sync::atomic::{AtomicBool, AtomicU64, AtomicUsize, Ordering};
 use std::sync::{Arc, OnceLock};
 use std::time::Duration;
+#[cfg(not(rustrtc_verif))]
 use tokio::net::UdpSocket;
+#[cfg(rustrtc_verif)]
+use crate::verif_hooks::UdpSocket;
 use tokio::sync::mpsc;
 use tracing::{debug, trace};
 
